@@ -43,6 +43,12 @@ CLAIMED = {
         text="Tens of thousands of value trees built from format-significant strings, numeric extremes, non-finite floats, quoting-hostile keys and nested empties are converted by the real converters (directly, through convert expressions and through `out` with the real CLI) and read back by decoders that share no code with serde; nesting, order, key sets, strings and exact numeric values must agree, and values the format cannot carry must be errors.",
         note="Trusted: the independent decoders; my YAML 1.2 core-schema resolver (scalars on which 1.1 and 1.2 differ are counted). TOML arrays mixing types or nesting tables: error or exact round trip both accepted.",
         design="DESIGN.md section 4, C03"),
+    "C15": dict(
+        engine="probe",
+        technique="runtime monitor: differential against independent decoders on Python-generated documents and their corruptions; strict decoder decides accept/reject, exclusions counted",
+        text="JSON, TOML and YAML documents written by writers of my own (never by serde) and two corrupted variants of each are included by the real code; the tagged value (ints and floats kept apart) must equal what CPython json / tomllib / libyaml read from the same bytes, and whatever the strict decoder rejects must be a build error. Text, empty and binary files are included as str / b64 / b64urlsafe and compared with the file text and Python's base64.",
+        note="Trusted: the independent decoders. Constructs on which decoders legitimately differ are excluded and counted in the evidence (duplicate keys, ints outside i64, YAML anchors/tags/merge/non-string keys/1.1-only and leading-zero scalars, surrogates, -0, out-of-range floats, TOML dates).",
+        design="DESIGN.md section 4, C15"),
     "C17": dict(
         engine="probe",
         technique="runtime monitor: span oracle from my layout engine on single-fault programs (primary position inside the faulty statement, VIA inside the caller) + metamorphic line-shift check; eval, build and CLI",
